@@ -146,6 +146,42 @@ def _task_condition(task):
                                         {"form": "Condition-param-param", "op": op, "left": lv, "right": rv, "lkind": _kind(lv),
                                          "rkind": _kind(rv), "left_cal": lcal, "right_cal": rcal},
                                         expected=want, observed=repr(got))
+            # operands beyond 2**53: Python compares int with float exactly; going through float() does not
+            big = [2 ** 53, 2 ** 53 + 1, float(2 ** 53), 2 ** 60, 2 ** 60 + 1, float(2 ** 60), -(2 ** 53) - 1, float(-(2 ** 53)), 2 ** 64 - 1, float(2 ** 64)]
+            for lv, rv in itertools.product(big, repeat=2):
+                for lcal, rcal in ((True, True), (True, False), (False, True)):
+                    L = _mk_value(common, lv, type(lv)(1)) if lcal else _mk_value(common, type(lv)(1), lv)
+                    R = _mk_value(common, rv, type(rv)(1)) if rcal else _mk_value(common, type(rv)(1), rv)
+                    want = interp.relate(op, lv, rv)
+                    t.evals += 1
+                    try:
+                        got = comparisons.Condition("L", op, right_param="R", left_use_calibrated_value=lcal, right_use_calibrated_value=rcal).evaluate(
+                            CCSDSPacket(L=L, R=R))
+                    except Exception as e:  # noqa: BLE001
+                        got = f"raised:{type(e).__name__}"
+                    t.nontrivial += 1
+                    t.outcomes[f"cond-pp-big:{want}"] += 1
+                    if not _is_bool(got, want):
+                        t.violation({"kind": "condition", "mixed": _kind(lv) != _kind(rv), "big": True, "got": str(got)[:30]},
+                                    {"form": "Condition-param-param", "op": op, "left": repr(lv), "right": repr(rv), "lkind": _kind(lv), "rkind": _kind(rv),
+                                     "left_cal": lcal, "right_cal": rcal, "big": True}, expected=want, observed=repr(got))
+            for lv in big:
+                if not isinstance(lv, int):
+                    continue
+                for lit in (str(lv), str(lv + 1), str(lv - 1)):
+                    want = interp.relate(op, lv, int(lit))
+                    for form in ("Comparison", "Condition"):
+                        t.evals += 1
+                        try:
+                            if form == "Comparison":
+                                got = comparisons.Comparison(lit, "L", operator=op).evaluate(CCSDSPacket(L=common.IntParameter(lv)))
+                            else:
+                                got = comparisons.Condition("L", op, right_value=lit, right_use_calibrated_value=False).evaluate(CCSDSPacket(L=common.IntParameter(lv)))
+                        except Exception as e:  # noqa: BLE001
+                            got = f"raised:{type(e).__name__}"
+                        if not _is_bool(got, want):
+                            t.violation({"kind": "comparison-big-int", "form": form, "got": str(got)[:30]},
+                                        {"form": form + "-big", "op": op, "value": repr(lv), "literal": lit, "big": True}, expected=want, observed=repr(got))
             # parameter vs literal
             for lv in nums + STR_VALS:
                 for lcal in (True, False):
@@ -573,7 +609,7 @@ def run(ctx):
         "exhaustive": True,
         "bound": (f"Comparison: 16 operator spellings x both selectors x 13 values x 13 raw values x literals of the selected type (full truth table) "
                   f"+ own-raw-value form; Condition: 16 spellings x (parameter-vs-parameter over 10 numeric values incl. int-vs-float in both orders "
-                  f"and bools, 3 strings; 4 selector combinations) + parameter-vs-literal; BooleanExpression: all {len(trees)} AND/OR trees with <= {maxl} "
+                  f"and bools, 3 strings; 4 selector combinations; 10 operands around 2^53, 2^60, 2^64 as int and as float) + parameter-vs-literal; BooleanExpression: all {len(trees)} AND/OR trees with <= {maxl} "
                   f"leaves and depth <= {maxd} x 2 leaf forms x all 2^leaves assignments, plus (<= 4 leaves) every binding of the leaves to 2 repeated parameters with alternating selectors x all 16 value/raw assignments; DiscreteLookup: 5 criteria lists x 4 values x 9 assignments; "
                   f"reuse: one Comparison/Condition/BooleanExpression/DiscreteLookup object evaluated over every history of {2 if ctx.quick else 3} operands of mixed kinds (10 operands); "
                   f"consumer level: {len(crits)} restriction criteria (every form) x {len(consumer_packets())} packets, loaded from XML and built from objects"),
@@ -610,6 +646,8 @@ def replay(case):
         t = _task_consumer({"crits": [crits[i]], "via": case["via"], "base": i, "tier": case.get("tier", "thorough")})
     if t is None:
         return None
+    if case.get("big"):
+        return next((v for v in (t.violations if t else []) if v["case"].get("big") and all(v["case"].get(k) == case.get(k) for k in case)), None)
     for v in t.violations:
         c = v["case"]
         if all(c.get(k) == case.get(k) for k in ("op", "use_cal", "value", "raw", "literal", "left", "right", "left_cal",
